@@ -23,7 +23,7 @@ func init() {
 		ID: "C03", Fn: c03,
 		Rule:        "one evaluation = one undo (or null-undo) after which all public observables are compared with the snapshot taken before the matching do; excursions are randomised depth-first walks over pseudo-legal moves (illegal ones undone immediately, as the search does) with null moves; distinct = distinct positions at which an undo was checked",
 		Assumptions: []string{"observables = public getters listed in C03 + Evaluate; raw struct equality is not demanded"},
-		Required:    []string{"undo_checked", "null_undo_checked", "near_capacity_roots", "undo_promotion", "undo_promotion_capture", "undo_enpassant", "undo_castling", "undo_illegal_pseudo", "depth_ge_6"},
+		Required:    []string{"undo_checked", "null_undo_checked", "near_capacity_roots", "undo_promotion", "undo_promotion_capture", "undo_enpassant", "undo_castling", "undo_illegal_pseudo", "depth_ge_6", "nodes_before_snapshot_from_copy"},
 		MinEvals:    10000,
 	})
 	register(&CheckSpec{
@@ -219,7 +219,17 @@ func c03(c *Ctx) {
 	nullChance := 0.3
 	var exc func(p *position.Position, r *Rng, d int, lastNull bool, path []string, root string)
 	exc = func(p *position.Position, r *Rng, d int, lastNull bool, path []string, root string) {
-		pre := snapshot(p, ev, true)
+		// In a third of the nodes the "before" snapshot is taken from a copy of the position
+		// object, so that nothing has been asked of the object itself (no cached answers)
+		// when its moves are made and taken back.
+		var pre Obs
+		if r.Chance(0.33) {
+			cp := *p
+			pre = snapshot(&cp, ev, true)
+			rep.Inc("nodes_before_snapshot_from_copy")
+		} else {
+			pre = snapshot(p, ev, true)
+		}
 		if phaseSum(p) > 24 {
 			over24 = true
 			rep.Inc("nodes_phase_sum_over_24")
@@ -256,7 +266,7 @@ func c03(c *Ctx) {
 			}
 		}
 		doNull := func() {
-			if lastNull || d <= 0 || p.HasCheck() || !r.Chance(nullChance) {
+			if lastNull || d <= 0 || pre.HasCheck || !r.Chance(nullChance) {
 				return
 			}
 			p.DoNullMove()
